@@ -6,6 +6,7 @@ import (
 	"crypto/rand"
 	"errors"
 	"fmt"
+	"github.com/mr-tron/base58"
 	"net"
 	"sort"
 	"strings"
@@ -81,6 +82,7 @@ func TestProp_ConcurrentHandshakes(t *testing.T) {
 		opts = append(opts, items...)
 		acceptors := rapid.IntRange(2, 8).Draw(t, "acceptors")
 		rig := vkit.NewRig(w, vkit.RigConfig{Options: opts, Acceptors: acceptors})
+		rig.StallIsResult = true
 		defer rig.Close()
 
 		idc := 0
@@ -92,7 +94,7 @@ func TestProp_ConcurrentHandshakes(t *testing.T) {
 			for i := 0; i < n; i++ {
 				idc++
 				c := &client{id: idc}
-				c.kind = rapid.SampledFrom([]string{"auth", "auth", "token", "token", "fetch-unauthorized", "fetch-authorized", "forged-nonce", "foreign-cert", "malformed-chunks"}).Draw(t, "kind")
+				c.kind = rapid.SampledFrom([]string{"auth", "auth", "token", "token", "fetch-unauthorized", "fetch-authorized", "forged-nonce", "foreign-cert", "malformed-chunks", "token-for-enrolled-key"}).Draw(t, "kind")
 				kinds[c.kind]++
 				switch c.kind {
 				case "auth", "forged-nonce", "foreign-cert", "malformed-chunks":
@@ -120,6 +122,18 @@ func TestProp_ConcurrentHandshakes(t *testing.T) {
 						t.Fatalf("token: %v", err)
 					}
 					c.a = vkit.NewActor(fmt.Sprint("t", c.id), nodeenrollment.WithActivationToken(c.token))
+				case "token-for-enrolled-key":
+					// an already enrolled key presents a fresh, valid token: refused (C06), and
+					// the refusal must not disturb anybody else
+					c.a = vkit.NewActor(fmt.Sprint("e", c.id))
+					if err := w.Enroll(c.a); err != nil {
+						t.Fatalf("enroll: %v", err)
+					}
+					var err error
+					_, c.token, err = registration.CreateServerLedActivationToken(w.Ctx, w.Store, &types.ServerLedRegistrationRequest{}, w.O()...)
+					if err != nil {
+						t.Fatalf("token: %v", err)
+					}
 				case "fetch-unauthorized":
 					c.a = vkit.NewActor(fmt.Sprint("u", c.id))
 				case "fetch-authorized":
@@ -146,6 +160,23 @@ func TestProp_ConcurrentHandshakes(t *testing.T) {
 						c.conn, c.err = rig.Dial(c.a, extra, st)
 					case "token":
 						c.conn, c.err = rig.Dial(c.a, extra, st, nodeenrollment.WithActivationToken(c.token))
+					case "token-for-enrolled-key":
+						// the enrolled key asks for credentials again, this time with the token
+						req := c.a.Request()
+						info := new(types.FetchNodeCredentialsInfo)
+						_ = proto.Unmarshal(req.Bundle, info)
+						tn, terr := tokenNonce(c.token)
+						if terr != nil {
+							c.err = terr
+							return
+						}
+						info.Nonce = tn
+						self := vkit.MintLeaf(nil, vkit.LeafSpec{Pub: c.a.CertPub, SKI: c.a.CertPkix, NB: vkit.TS0().Add(-60e9), NA: vkit.TS0().Add(60e9), SelfSign: c.a.CertPriv, IsCA: true})
+						r := (&vkit.AdvClient{NextProtos: vkit.FetchProtos(vkit.Sign(info, c.a.CertPriv)), Chain: [][]byte{self}, Key: c.a.CertPriv}).Handshake(rig.Addr)
+						c.err = r.Err
+						if r.Conn != nil {
+							c.conn = r.Conn
+						}
 					case "forged-nonce", "foreign-cert", "malformed-chunks":
 						nonce := make([]byte, 32)
 						_, _ = rand.Read(nonce)
@@ -191,6 +222,10 @@ func TestProp_ConcurrentHandshakes(t *testing.T) {
 			fail := func(key, f string, a ...any) {
 				vkit.Violate(t, prop, "C15/"+key, fmt.Sprintf(f, a...), desc)
 			}
+			if rig.Stalled {
+				fail("listener-stalled", "the listener stopped producing outcomes: connections of this wave (and a probe connection after them) are still inside Accept after 25 s, although each of them is answered at once when handled alone")
+				return
+			}
 			for _, o := range outs {
 				if o.Panic != nil {
 					fail("panic", "Accept panicked: %v\n%s", o.Panic, o.Stack)
@@ -212,7 +247,7 @@ func TestProp_ConcurrentHandshakes(t *testing.T) {
 				}
 				seen[id]++
 				c := byID[id]
-				if c.kind == "forged-nonce" || c.kind == "foreign-cert" || c.kind == "fetch-unauthorized" || c.kind == "malformed-chunks" {
+				if c.kind == "forged-nonce" || c.kind == "foreign-cert" || c.kind == "fetch-unauthorized" || c.kind == "malformed-chunks" || c.kind == "token-for-enrolled-key" {
 					fail("rejected-client-accepted/"+c.kind, "client %d (%s) was returned as authenticated", id, c.kind)
 				}
 				own, foreign := false, ""
@@ -287,3 +322,8 @@ func TestProp_ConcurrentHandshakes(t *testing.T) {
 }
 
 func bytesEq(a, b []byte) bool { return string(a) == string(b) }
+
+// tokenNonce decodes an activation token into the nonce a fetch request carries for it.
+func tokenNonce(token string) ([]byte, error) {
+	return base58.FastBase58Decoding(strings.TrimPrefix(token, nodeenrollment.ServerLedActivationTokenPrefix))
+}
